@@ -44,6 +44,26 @@ Theorem qos2_not_again : ∀ cl c mid clk k n s,
 Proof. exact stray_pubrel_forwards_nothing. Qed.
 Print Assumptions qos2_not_again.
 
+From Wasp Require Import Proofs.Qos2Facts.
+(** "... forwarded exactly once per PUBLISH/PUBREL handshake": the PUBREL that finds the pending
+    handshake hands exactly the stored publish to the publish path, once, with PUBCOMP as the
+    acknowledgement the worker writes only when every store succeeded ([ack_after_store]), and
+    the handshake is out of the in-flight table afterwards — so the next PUBREL with that
+    identifier is the case of [qos2_not_again]. *)
+Theorem pubrel_forwards_exactly_once : ∀ cl c mid clk k s e c' m retain,
+  (c_node k < length (cl_nodes cl))%nat →
+  find_conn cl c = Some k → c_closed k = false → c_sid k = Some (ss_id s) →
+  alookup (ss_id s) (n_reg (getn cl (c_node k))) = Some s →
+  ack_find (n_acks (getn cl (c_node k))) (ss_id s ++ "/in") mid = Some e →
+  a_expect e = PUBREL → a_tag e = TIn (ss_id s) c' m retain → a_mid e = mid →
+  let n := getn cl (c_node k) in
+  let cl' := setn cl (c_node k) (set_acks n (ack_remove (n_acks n) (ss_id s ++ "/in") mid)) in
+  let w := worker cl' (c_node k) m retain clk (wout (cl_bad cl) c' (OPubComp mid)) in
+  do_ack cl c PUBREL mid clk = (w.1, w.2 ++ dl s) ∧
+  ack_find (n_acks (getn w.1 (c_node k))) (ss_id s ++ "/in") mid = None.
+Proof. exact pubrel_forwards_once. Qed.
+Print Assumptions pubrel_forwards_exactly_once.
+
 (** non-vacuity: a QoS 1 publish with the local append failing is not acknowledged; the retry is *)
 Example c05_history :
   let run := fold_left (λ st o, let r := step [] st.1 o in (r.1, (st.2 ++ [r.2])%list)) in
